@@ -129,3 +129,33 @@ reg('C09', True, 'other',
     'Trusted: rayon calls each closure with the arguments it was given and its max is order-consistent; std Vec/String/Box are '
     'unique owners. Does not explore schedules (not needed for an ownership argument) and does not decide rayon itself.',
     'type-graph ownership analysis + effect/call-graph reachability + symbolic clone fidelity + closure capture dataflow')
+
+reg('C08', True, 'other',
+    'CLAUSES. Who-may-write (only StandardBasis::{set_value,reset_value} reach the cell; cell field and UnsafeCell accessors '
+    'confined to SharedValue); the value stored by set_value on every path equals clamp(x,min,max) on all 8 orderings of x '
+    'against the handle\'s own immutable bounds; declared ranges and free parameters per crystal family lifted by symbolic '
+    'execution with a recording Vec::push model and compared with the property\'s ranges (length [0.01,current], ratio '
+    '[0.1,current], angle [pi/6,pi/2] Monoclinic only; site x,y [-1/2,1/2], orientation [0,2pi/rot] with rot=1 at both call '
+    'sites); initial values within their ranges by interval evaluation of from_family/from_wyckoff.',
+    'NOT decided: that the returned score is finite/defined and that every group x shape starts from a valid (overlap-free) '
+    'state (geometric); initial length >= 0.01 is assumed (positive enclosing radius).',
+    'who-may-write call-graph rule + symbolic execution (piecewise clamp, recorded pushes) + interval evaluation')
+
+reg('C15', True, 'other',
+    'CLAUSES. positions() = symmetries.iter().map(op*site).map(wrap) and nothing else (adaptor whitelist): exactly N placements, '
+    'placement k from operation k; multiplicity = len of the same vector; the product has the operation on the LEFT and the '
+    'four Transform2 x Transform2 impls are the matrix product self*rhs; the site transform is [[cos a,-sin a,x],[sin a,cos a,y],'
+    '[0,0,1]]; the wrap changes only the two translation entries, each to ((u-o) rem P + P) rem P + o (or rem_euclid / floor '
+    'forms), called once with P=1, o=-1/2.',
+    'NOT decided: the IEEE edge cases of the double remainder the property names (u = +-1/2 exactly, tiny negative values '
+    'rounding up to P) — a statement about rounding for all doubles.',
+    'adaptor-chain recognition + symbolic execution with a nalgebra matrix model + normal-form identity')
+
+reg('C04', True, 'other',
+    'CLAUSES (Cartesian invariance is derived, not observed). Composition order and wrap (C15 obligations re-run); set_position '
+    'writes only entries (0,2),(1,2); for each of the 5 groups containing a linear part other than +-I the paired crystal family '
+    'has no angle degree of freedom, starts at pi/2 and all linear parts are diagonal (commute with every rectangular cell) — '
+    'tables lifted from HIR (groups) and by symbolic execution (degrees of freedom, from_family); family fields are never '
+    'assigned after construction and the cell is created from wallpaper.family.',
+    'Relies on C16 (tables are the named groups) and C14 (one lattice map). Does not observe placements.',
+    'literal-table agreement (group x family x degrees of freedom) + symbolic execution + field-write scan')
